@@ -1385,6 +1385,7 @@ pub fn engine_body(run: &Run, replay: Option<&Value>, cfg: &EngineConfig) {
     run.bound("u32_alphabet", json!("n-1,n,n+1,0x7FFFFFFF,0x80000000,0xFFFFFFFF at every even position"));
     run.bound("extensions", json!("{1,2,4} bytes of 00 / FF"));
     run.bound("external_argument_family", crate::extarg::describe());
+    run.bound("aat_synthetic_family", json!(crate::aatsynth::describe()));
     run.bound("purity", json!(if b.purity_every_case { "every k=1 case at positions < 4096 of table/file/static seeds; other cases: first case of each work unit producing each new outcome class" } else { "first case of each work unit producing each new outcome class (read ok?, root field count, log2(accessor calls), error count)" }));
     let mut n_by_class: BTreeMap<&str, u64> = BTreeMap::new();
     for s in &plan.seeds {
